@@ -1,6 +1,7 @@
 (* Run/R_C03.v -- correspondence runner for C03 *)
 From Coq Require Import ZArith List Bool Arith QArith Qcanon.
-From JV Require Export Kit.Field Kit.Expr Kit.NumRun Model.M_lossterms.
+From JV Require Export Kit.Field Kit.Expr Kit.NumRun Kit.Tx Model.M_lossterms.
+From JV Require Import Inst.I_reduce.
 Import ListNotations.
 Record case := mkcase {
   cid : nat; nvars : nat; w : weight QcF;
@@ -11,8 +12,13 @@ Record case := mkcase {
   obs_total : QcF }.
 Definition residuals (c : case) : list (list QcF) :=
   map (fun p => map (fun q => evq (mkenv p [] []) (polyIn (nvars c) q)) (res_polys c)) (batch c).
+Definition wten (w : weight QcF) : ten QcF := match w with WScalar x => T0 x | WVec l => T1 l end.
+(* the reduction expression regenerated from dynamic_loss_apply, evaluated on the residual matrix *)
+Definition regenerated_dyn (c : case) : bool :=
+  match tsem QcF [T2 (residuals c); wten (w c)] g_dyn_reduce_pinn with
+  | Some (T0 v) => qclose v (obs_dyn c) | _ => false end.
 Definition check (c : case) : bool :=
-  qclose (dyn_term QcF (w c) (residuals c)) (obs_dyn c) &&
+  qclose (dyn_term QcF (w c) (residuals c)) (obs_dyn c) && regenerated_dyn c &&
   qclose (total QcF (map Some (obs_terms c))) (obs_total c) &&
   forallb (fun x => qeqb x (qz 0)) (absent c).
 Definition summary (cases : list case) :=
